@@ -3,7 +3,7 @@
 the checks of the property it breaks (quick, then thorough if quick is silent). Writes seeded/MATRIX.json."""
 import sys, os, json, subprocess, tempfile, shutil, hashlib, glob, re, time
 V = '/verif'
-ids = sys.argv[1:] or sorted(os.path.basename(d) for d in glob.glob(V + '/seeded/C*'))
+ids = sys.argv[1:] or sorted(os.path.basename(d) for d in glob.glob(V + '/seeded/C*') if os.path.isdir(d))
 try:
     matrix = json.load(open(V + '/seeded/MATRIX.json'))
 except Exception:
